@@ -1030,10 +1030,10 @@ theorem valTokens_noChar (c : Char) (hc : c ≠ '1' ∧ c ≠ '0') (v : Value)
   intro t ht
   simp only [valTokens, Value.codeVals, mem_isort] at ht
   cases v with
-  | text s => simp only [Value.hashed, mem_singleton] at ht; subst ht; exact h _ (by simp [Value.strings])
-  | null => simp [Value.hashed] at ht
+  | text s => simp only [Value.wire, mem_singleton] at ht; subst ht; exact h _ (by simp [Value.strings])
+  | null => simp [Value.wire] at ht
   | bool b =>
-    cases b <;> simp only [Value.hashed, mem_singleton] at ht <;> subst ht <;> simp [hc.1, hc.2]
+    cases b <;> simp only [Value.wire, mem_singleton] at ht <;> subst ht <;> simp [hc.1, hc.2]
   | list l => exact h t ht
 
 theorem lt_notin_bool : '<' ∉ "true".toList ∧ '<' ∉ "false".toList := by decide
@@ -1208,50 +1208,24 @@ theorem canon_eq_of_tokens_eq {a b : Info} (hsa : NoSlash a) (hsb : NoSlash b)
 
 /-! ## 8. where the C++ and the XEP agree -/
 
-/-- no form value contains a carriage return (the one character a conforming reader of element text changes) -/
-def NoCR : Option (List Field) → Prop
-  | none => True
-  | some fs => ∀ f ∈ fs, ∀ s ∈ f.value.strings, '\r' ∉ s
-
-theorem xmlLineEnds_of_noCR : ∀ s : Str, '\r' ∉ s → xmlLineEnds s = s
-  | [], _ => rfl
-  | c :: r, h => by
-    have hc : c ≠ '\r' := fun e => h (e ▸ mem_cons_self)
-    have hr : '\r' ∉ r := fun m => h (mem_cons_of_mem _ m)
-    rw [xmlLineEnds.eq_3 c r (fun _ e _ => hc e) (fun e => hc e), xmlLineEnds_of_noCR r hr]
-
-theorem wire_eq_hashed {v : Value} (h : ∀ s ∈ v.strings, '\r' ∉ s) : v.wire = v.hashed := by
-  cases v with
-  | text s => simp [Value.wire, Value.hashed, xmlLineEnds_of_noCR s (h s (by simp [Value.strings]))]
-  | null => rfl
-  | bool b => cases b <;> decide
-  | list l =>
-    simp only [Value.wire, Value.hashed]
-    have e : map xmlLineEnds l = map id l := map_congr_left (fun s hs => xmlLineEnds_of_noCR s (h s hs))
-    rw [e]; simp
-
-/-- a field without CR in its values is hashed as the XEP says: `var<` and the values a peer reads, sorted, each followed by `<` -/
-theorem fieldStr_agree {f : Field} (h : ∀ s ∈ f.value.strings, '\r' ∉ s) : fieldStrCode f = fieldStrSpec f := by
-  simp only [fieldStrCode, fieldStrSpec, Value.codeVals, wire_eq_hashed h]
+/-- every field is hashed as the XEP says: `var<` and the written values, sorted, each followed by `<` -/
+theorem fieldStr_agree (f : Field) : fieldStrCode f = fieldStrSpec f := rfl
 
 /-- a string FORM_TYPE field with one written value: `QVariant::toString()` is that value -/
-theorem toStr_eq_wire {v : Value} (hb : ∀ b, v ≠ .bool b) (hc : ∀ s ∈ v.strings, '\r' ∉ s) {w : Str} (hw : v.wire = [w]) :
-    v.toStr = v.wire.flatten := by
-  rw [wire_eq_hashed hc] at hw ⊢
+theorem toStr_eq_wire {v : Value} (hb : ∀ b, v ≠ .bool b) {w : Str} (hw : v.wire = [w]) : v.toStr = v.wire.flatten := by
   cases v with
   | bool b => exact absurd rfl (hb b)
-  | null => simp [Value.hashed] at hw
-  | text s => simp [Value.toStr, Value.hashed]
-  | list l => simp only [Value.hashed] at hw; subst hw; simp [Value.toStr, Value.hashed]
+  | null => simp [Value.wire] at hw
+  | text s => simp [Value.toStr, Value.wire]
+  | list l => simp only [Value.wire] at hw; subst hw; simp [Value.toStr, Value.wire]
 
 /-- the form part: QMap with last-wins/`toString` against the XEP's steps 6–7 -/
-theorem formStr_agree {form : Option (List Field)} (hx : XepForm form) (hc : NoCR form) :
+theorem formStr_agree {form : Option (List Field)} (hx : XepForm form) :
     formStrCode form = formStrSpec form := by
   cases form with
   | none => rfl
   | some fs =>
     simp only [XepForm] at hx
-    simp only [NoCR] at hc
     simp only [formStrCode, formStrSpec]
     rw [buildMap_find fs hx.1, buildMap_filter fs hx.1]
     cases hft : fs.find? (fun f => decide (f.key = formTypeKey)) with
@@ -1261,11 +1235,8 @@ theorem formStr_agree {form : Option (List Field)} (hx : XepForm form) (hc : NoC
       have hk : ft.key = formTypeKey := by simpa using find?_some hft
       obtain ⟨⟨w, hw⟩, hb⟩ := hx.2 ft hm hk
       simp only
-      rw [toStr_eq_wire hb (hc ft hm) hw]
-      congr 2
-      apply flatMap_congr'
-      intro f hf
-      exact fieldStr_agree (hc f (mem_filter.mp ((mem_isort _ _ f).mp hf)).1)
+      rw [toStr_eq_wire hb hw]
+      rfl
 
 theorem isPrefixOf_self_append : ∀ (p r : Str), p.isPrefixOf (p ++ r) = true
   | [], _ => by simp [isPrefixOf]
@@ -1278,8 +1249,4 @@ instance (i : Info) : Decidable (NoSlash i) := by unfold NoSlash; infer_instance
 instance : (f : Option (List Field)) → Decidable (DistinctKeys f)
   | none => isTrue trivial
   | some fs => inferInstanceAs (Decidable (fs.map Field.key).Nodup)
-instance : (f : Option (List Field)) → Decidable (NoCR f)
-  | none => isTrue trivial
-  | some fs => inferInstanceAs (Decidable (∀ f ∈ fs, ∀ s ∈ f.value.strings, '\r' ∉ s))
-
 end Qx.C20
